@@ -31,6 +31,60 @@ def last_label_texts(rng, n):
     return out
 
 
+def host_texts(rng, n):
+    """inputs for parse_host: what gen_host produces (domains, IPv4 spellings, IPv6 literals, disguises) plus shapes aimed at the
+    branches of the function: upper case only, 'xn-' inside / at the start of a label, forbidden bytes, escapes, non-ASCII"""
+    out = []
+    aimed = [b"EXAMPLE.com", b"Ex.Co", b"axn-b.com", b"xn--a.com", b"XN--A.com", b"a.xn--b", b"Axn-B", b"a b", b"a%20b", b"%41.com", b"%",
+             b"%zz", b"a%2eb", b"1.2.3.4", b"1.2.3.4.", b"1.2.3.4..", b"0x7f.1", b"0X7F.1", b"1.2.3.4.5", b"999.1.1.1", b"1.2.3", b"a.1", b"A.0X1",
+             "é.com".encode(), "É.COM".encode(), "ａ.com".encode(), b"a..b", b".", b"..", b"a.", b"[::1]", b"[::1", b"::1]", b"[1::2]:3", b"[",
+             b"a:b", b"a@b", b"a/b", b"a\\b", b"a^b", b"a|b", b"a<b", b"a\x7fb", b"\x00", b"x" * 70, b"%C3%A9.com", b"%e9.com", b"1%2e2.3.4",
+             b"0x.0x.0x.0x", b"00000000000000000000000001.1", b"4294967296", b"0xffffffff", b"localhost", b"LOCALHOST", b"xn--", b"xn-"]
+    for _ in range(n):
+        r = rng.random()
+        if r < 0.35:
+            out.append(rng.choice(aimed))
+        elif r < 0.85:
+            out.append(genlib.gen_host(rng))
+        else:
+            out.append(genlib.rbytes(rng, rng.randrange(1, 8)))
+    return [t for t in out if t]
+
+
+def explore_parse_host(run, binp, n):
+    rng = run.rng
+    lines = []
+    for t in host_texts(rng, n):
+        lines.append(f"phost {rng.choice([1, 1, 1, 0])} {hx(t)}")
+    real, crash = lib.run_lines(binp, lines, timeout=600)
+    if crash:
+        idx = min(crash.get("answered", 0), len(lines) - 1)
+        run.violation("crash:" + lines[idx], "parse_host crashed/aborted when called directly", lines=[lines[idx]], detail=crash)
+        return
+    q = [l + " " + r.split()[2] for l, r in zip(lines, real)]
+    model, dcrash = lib.run_lines(lib.driver_path(), q, timeout=600)
+    if dcrash:
+        run.oblige("corr:L1 parse_host (driver)", False, str(dcrash)[:300])
+        return
+    bad, kinds = [], {"fail": 0, "domain": 0, "ipv4": 0, "ipv6": 0}
+    for l, r, m in zip(lines, real, model):
+        run.count()
+        run.nontriv(l)
+        p = r.split()
+        k = "fail" if p[0] == "fail" else {"0": "domain", "1": "ipv4", "2": "ipv6"}.get(p[0].split(",")[1], "?")
+        kinds[k] = kinds.get(k, 0) + 1
+        if p[0] != p[1]:
+            run.violation("twins:" + l, f"parse_host on {lib.unhx(l.split()[2])!r} (special={l.split()[1]}): ada::url gives {p[0]}, "
+                          f"ada::url_aggregator gives {p[1]}", lines=[l])
+            continue
+        if " ".join(p[:2]) != m:
+            bad.append((l, " ".join(p[:2]), m))
+    run.extra["parse_host_L1_calls"] = len(lines)
+    run.extra["parse_host_L1_outcomes"] = kinds
+    run.oblige("corr:L1 Model.HostParse = url::parse_host / url_aggregator::parse_host (text and host_type) on every call", not bad,
+               "; ".join(f"parse_host(special={l.split()[1]}, {lib.unhx(l.split()[2])!r}): implementation {r}, model {m}" for l, r, m in bad[:4]))
+
+
 def explore(run, binp, n):
     rng = run.rng
     lines = []
